@@ -1,7 +1,6 @@
 SPECIFICATION Spec
 CONSTANTS
-  Part = "member"
+  Part = "shapes"
   MaxArms = 1
-INVARIANT MemberOK
-INVARIANT FlattenStrict
+INVARIANT FlattenOrderStrict
 CHECK_DEADLOCK FALSE
